@@ -427,6 +427,7 @@ pub fn run(tier: Tier, totals: &mut Totals) {
     prefix_family(totals);
     padded_names(totals);
     look_alike_names(totals);
+    word_values(totals);
 }
 
 /// Names that are prefixes of one another: every subset of nine look-alike names defined, then one
@@ -574,6 +575,70 @@ fn look_alike_names(totals: &mut Totals) {
     }
 }
 
+/// A value is stored as it is given, whatever it reads like: the language's own words (or, and, not,
+/// the block keywords, the false words), numbers, texts that read like handles, scopes, options or
+/// variable names. Stored by set_by_name, read back by get_by_name, carried through a push and a pop
+/// with --copy.
+fn word_values(totals: &mut Totals) {
+    let mut values: Vec<String> = vec![];
+    for w in [
+        "or", "and", "not", "OR", "And", "true", "false", "no", "0", "1", "-1", "NaN", "null", "none", "nil", "undefined", "if", "else", "elseif", "end", "end_if", "while", "for", "in", "function", "fn", "end_fn",
+        "return", "goto", "set", "unset", "=", "==", "!=", "(", ")", "--copy", "--prefix", "--", "-", "handle:1", "scope::x", "std::set", ":label", "!print", "#", "a", "a b", " ", " a ", "or or", "x or y", "true or false", "false or",
+    ] {
+        values.push(w.to_string());
+    }
+    for name in ["a", "p::a"] {
+        for v in &values {
+            totals.evals += 1;
+            totals.transitions += 1;
+            totals.traces += 1;
+            totals.nontrivial += 1;
+            let mut s = Session::new();
+            let mut problems: Vec<String> = vec![];
+            s.variables.insert("other".to_string(), "O".to_string());
+            let r = s.call("set_by_name", &[name, v]);
+            if r != Out::Val(Some(v.clone())) {
+                problems.push(format!("set_by_name answered {:?}", r));
+            }
+            if s.variables.get(name) != Some(v) {
+                problems.push(format!("the variable holds {:?}", s.variables.get(name)));
+            }
+            let r = s.call("get_by_name", &[name]);
+            if r != Out::Val(Some(v.clone())) {
+                problems.push(format!("get_by_name answered {:?}", r));
+            }
+            let r = s.call("is_defined", &[name]);
+            if r != Out::Val(Some("true".to_string())) {
+                problems.push(format!("is_defined answered {:?}", r));
+            }
+            s.call("scope_push_stack", &["--copy", name]);
+            if s.variables.get(name) != Some(v) || s.variables.len() != 1 {
+                problems.push(format!("after push --copy the variables are {:?}", sorted_vars(&s.variables)));
+            }
+            s.call("scope_pop_stack", &["--copy", name]);
+            let mut expect: BTreeMap<String, String> = BTreeMap::new();
+            expect.insert("other".to_string(), "O".to_string());
+            expect.insert(name.to_string(), v.clone());
+            if sorted_vars(&s.variables) != expect {
+                problems.push(format!("after pop --copy the variables are {:?}", sorted_vars(&s.variables)));
+            }
+            // a second value replaces the first one
+            let r = s.call("set_by_name", &[name, "second"]);
+            if r != Out::Val(Some("second".to_string())) || s.variables.get(name).map(|x| x.as_str()) != Some("second") {
+                problems.push(format!("a second set_by_name answered {:?}, the variable holds {:?}", r, s.variables.get(name)));
+            }
+            if !problems.is_empty() {
+                let sig = "word-value".to_string();
+                let e = totals.failures.entry(sig.clone()).or_insert((0, vec![]));
+                e.0 += 1;
+                if e.1.len() < 2 {
+                    e.1.push(json!({"idx": 0, "sig": sig, "what": format!("set_by_name {:?} {:?}: {}", name, v, problems.join("; ")), "replay": {"kind": "word-value", "name": name, "value": v}}));
+                }
+            }
+        }
+    }
+}
+
 /// A variable name is taken as it is given: with blanks (or other white space) around it, it is another
 /// name than without.
 fn padded_names(totals: &mut Totals) {
@@ -623,7 +688,7 @@ fn padded_names(totals: &mut Totals) {
 /// Depth and size far beyond the search bound: a scope stack hundreds of maps deep and a map with
 /// hundreds of variables, as scripts whose results are computed here.
 fn scale(tier: Tier, totals: &mut Totals) {
-    let sizes: Vec<u64> = with_thresholds(tier.pick(vec![10, 70, 300], vec![10, 70, 300, 1000, 3000]), tier.pick(1024, 16384));
+    let sizes: Vec<u64> = with_thresholds(tier.pick(vec![10, 70, 300, 6000], vec![10, 70, 300, 1000, 3000, 6000, 50000]), tier.pick(1024, 16384));
     for &d in &sizes {
         // d pushes, each level marks itself; d pops must come back through the marks in reverse order
         let text = format!(
@@ -686,6 +751,14 @@ pub fn replay(case: &Value) -> Result<String, String> {
         };
         return Ok(format!("variables {:?}\nget_all_var_names: {}", sorted_vars(&s.variables), listed));
     }
+    if case["kind"].as_str() == Some("word-value") {
+        let name = case["name"].as_str().unwrap_or("");
+        let v = case["value"].as_str().unwrap_or("");
+        let mut s = Session::new();
+        let r1 = s.call("set_by_name", &[name, v]);
+        let r2 = s.call("get_by_name", &[name]);
+        return Ok(format!("set_by_name {:?} {:?} answered {:?}\nget_by_name answered {:?}\nvariables {:?}", name, v, r1, r2, sorted_vars(&s.variables)));
+    }
     if case["kind"].as_str() == Some("padded-name") {
         let name = case["name"].as_str().unwrap_or("");
         let op = case["op"].as_str().unwrap_or("");
@@ -743,7 +816,7 @@ pub fn replay(case: &Value) -> Result<String, String> {
     Err("history uses operations outside the alphabet".into())
 }
 
-pub const RULE: &str = "explicit-state breadth-first search from the empty context: every operation of the alphabet (set via a one-line script; set_by_name with/without value, get_by_name, is_defined, unset with 1-2 names, get_all_var_names, unset_all_vars plain and --prefix, clear_scope, scope_push_stack / scope_pop_stack without --copy and with every --copy list of 0..2 names) is applied to every reachable state; pushes are disabled at the stack-depth bound so the space is finite and searched to a fixpoint. Each transition runs the real command, compares its output, the complete variable map, the saved maps inside the scope stack and the handle table with the model (map + stack of maps). States are de-duplicated on the implementation's own state (variables and the whole state map). evaluations = transitions; distinct_nontrivial = distinct states. Prefix family: every subset of nine look-alike names {p::a, p::b::c, p2::a, pp::a, p, px, q::p::a, p:a, P::a} x clear_scope p / p2 / q / p::b and unset_all_vars --prefix p / p:: / p2 / q::p: exactly the names the operation speaks of are removed. Scale cases (scripts, results computed in Rust): a scope stack 10/70/300 (thorough 1000, 3000) levels deep pushed and popped with --copy, a pop on the emptied stack; 10..300 variables written and read by name and removed by prefix Prefix family: 12 look-alike names (incl. p::::a, p::, ' p::a') x 18 operations (clear_scope and unset_all_vars --prefix with names ending in the separator, with blanks, in another case): exactly the names starting with NAME:: (the prefix) are removed. Padded names: 9 names with white space around them through set_by_name / get_by_name / is_defined / unset: another name than without. Look-alike names: 7 groups of names that differ only in letter case, dotted / dotless i, composed / decomposed form, sharp s, a ligature, the Kelvin sign, a look-alike colon - all defined at once: each keeps its value, the list of names has all, unsetting one leaves the others";
+pub const RULE: &str = "explicit-state breadth-first search from the empty context: every operation of the alphabet (set via a one-line script; set_by_name with/without value, get_by_name, is_defined, unset with 1-2 names, get_all_var_names, unset_all_vars plain and --prefix, clear_scope, scope_push_stack / scope_pop_stack without --copy and with every --copy list of 0..2 names) is applied to every reachable state; pushes are disabled at the stack-depth bound so the space is finite and searched to a fixpoint. Each transition runs the real command, compares its output, the complete variable map, the saved maps inside the scope stack and the handle table with the model (map + stack of maps). States are de-duplicated on the implementation's own state (variables and the whole state map). evaluations = transitions; distinct_nontrivial = distinct states. Prefix family: every subset of nine look-alike names {p::a, p::b::c, p2::a, pp::a, p, px, q::p::a, p:a, P::a} x clear_scope p / p2 / q / p::b and unset_all_vars --prefix p / p:: / p2 / q::p: exactly the names the operation speaks of are removed. Scale cases (scripts, results computed in Rust): a scope stack 10/70/300 (thorough 1000, 3000) levels deep pushed and popped with --copy, a pop on the emptied stack; 10..300 variables written and read by name and removed by prefix Prefix family: 12 look-alike names (incl. p::::a, p::, ' p::a') x 18 operations (clear_scope and unset_all_vars --prefix with names ending in the separator, with blanks, in another case): exactly the names starting with NAME:: (the prefix) are removed. Padded names: 9 names with white space around them through set_by_name / get_by_name / is_defined / unset: another name than without. Look-alike names: 7 groups of names that differ only in letter case, dotted / dotless i, composed / decomposed form, sharp s, a ligature, the Kelvin sign, a look-alike colon - all defined at once: each keeps its value, the list of names has all, unsetting one leaves the others Word values: 55 values that read like words of the language (or, and, not, block keywords, the false words), numbers, handles, scopes, options, labels, blanks, through set_by_name / get_by_name / is_defined / scope_push_stack --copy / scope_pop_stack --copy / a second set_by_name, under a plain and a prefixed name.";
 pub const ASSUMPTIONS: &[&str] = &["names from {a,b,p::a} (thorough also {a,ab,p::a,p}), values from {1, empty, 'x y'}", "for a name that is undefined when copied on pop the model follows the implementation between 'restored' and 'undefined'", "operations other than `name = set value` are run through run_instruction (outputs observed directly, no output variable)"];
 pub const EXHAUSTIVE: bool = true;
 pub const WALL_CAP_S: (u64, u64) = (50, 1500);
